@@ -333,6 +333,7 @@ func (in *instr) pre(c *astutil.Cursor) bool {
 		}
 		return true
 	}
+	in.preempt(c, st)
 	switch v := st.(type) {
 	case *ast.GoStmt:
 		in.rewriteGo(c, v)
@@ -407,6 +408,55 @@ func (in *instr) pre(c *astutil.Cursor) bool {
 		}
 	}
 	return true
+}
+
+// preempt inserts a statement-level preemption point (verifsim.Preempt, a
+// no-op unless a run turns it on) before statements that do something: calls,
+// assignments, control statements. Statements that get a real yield anyway
+// (channel operations, select, go, locks) are left alone.
+func (in *instr) preempt(c *astutil.Cursor, st ast.Stmt) {
+	switch v := st.(type) {
+	case *ast.AssignStmt, *ast.IncDecStmt, *ast.ReturnStmt, *ast.IfStmt, *ast.ForStmt, *ast.SwitchStmt, *ast.TypeSwitchStmt:
+		_ = v
+	case *ast.ExprStmt:
+		if ce, ok := v.X.(*ast.CallExpr); ok {
+			if recv, _, ok := in.methodOn(ce.Fun); ok && (recv == "sync.Mutex" || recv == "sync.RWMutex" || recv == "sync.WaitGroup") {
+				return
+			}
+			if p, name, ok := in.pkgFunc(ce.Fun); ok && p == "time" && name == "Sleep" {
+				return
+			}
+		} else {
+			return // a bare receive
+		}
+	case *ast.RangeStmt:
+		if t := in.info.TypeOf(v.X); t != nil {
+			if _, isChan := t.Underlying().(*types.Chan); isChan {
+				return
+			}
+		}
+	default:
+		return
+	}
+	if in.hasRecv(st) && !isCompound(st) {
+		return
+	}
+	in.useSim, in.changed = true, true
+	stats["preempt"]++
+	siteExpr := in.site(st, "")
+	hsh := uint32(2166136261)
+	for _, b := range []byte(siteExpr.(*ast.BasicLit).Value) {
+		hsh = (hsh ^ uint32(b)) * 16777619
+	}
+	c.InsertBefore(simStmt("Preempt", &ast.BasicLit{Kind: token.INT, Value: fmt.Sprint(hsh)}, siteExpr))
+}
+
+func isCompound(st ast.Stmt) bool {
+	switch st.(type) {
+	case *ast.IfStmt, *ast.ForStmt, *ast.SwitchStmt, *ast.TypeSwitchStmt, *ast.RangeStmt:
+		return true
+	}
+	return false
 }
 
 func (in *instr) fsYield(n ast.Node) ast.Stmt {
